@@ -21,6 +21,14 @@ CLAIMS = {
     'C06': ('abstract interpretation over an ordered-map domain of the defer/drain functions (all four modes x entry '
             'present/absent), exit/enter composition, writer census of the pending map, aliasing of script lists',
             'string content of merged commands is C07; OctoPrint settings plumbing trusted'),
+    'C10': ('effect analysis: the set of state fields written on any abstract path of any hook is contained in the set '
+            'resetState re-assigns with fresh values on all paths; print-started ordering; no global/class-level state; '
+            'configuration writers census',
+            'sufficient condition, fully static; parser scratch object re-initialised by every parse (C18)'),
+    'C20': ('abstract interpretation of StreamProcessor.__init__ (heap reachability: no live object reachable, deep copy) '
+            'and process_line over the result shapes of the handlers (mapping, EOL, byte-for-byte pass-through, stale reads '
+            'through the shared parser, flags of the command handed to the handlers)',
+            'handler result shapes from C09.R1; what OctoPrint passes to the live hook is assumed to be the stripped command'),
     'C11': ('abstract interpretation of on_event for every event constant x active flag x clear setting against the '
             'reference transition table; hooks with no active print return None without effects; writer census of the flag',
             'OctoPrint event delivery and distinctness of event names trusted; stored settings valid'),
